@@ -17,7 +17,7 @@ Record stepc := mkStep {
   s_op : op; s_drawn : list str; s_hint : list str; s_out : option exn; s_snap : snap; s_views : option sviews; s_pyviol : bool }.
 
 (* substrate flavour?, string table, steps (strings referenced through the table) *)
-Definition tcase := (bool * list str * ((N -> str) -> list stepc))%type.
+Definition tcase := ((bool * flags) * list str * ((N -> str) -> list stepc))%type.
 
 Definition cls_of_code (c : N) : cls :=
   match c with 0 => KNode | 1 => KComp | 2 => KNS | 3 => KCP | 4 => KLink | 5 => KComposite | _ => KOther end%N.
@@ -61,21 +61,21 @@ Definition views_agree (tb : N -> str) (g : graph) (v : option sviews) : bool :=
   end.
 
 (* codes of the checks that fail at one step: 1 outcome, 2 post-state, 3 wf_b vs Python oracle, 4 views *)
-Definition step_failures (sub : bool) (tb : N -> str) (pre : graph) (s : stepc) : list N :=
+Definition step_failures (cf : bool * flags) (tb : N -> str) (pre : graph) (s : stepc) : list N :=
   let post := decode tb (s_snap s) in
-  let '(g', out) := step sub pre (s_op s) (s_drawn s) (s_hint s) in
+  let '(g', out) := step (fst cf) (snd cf) pre (s_op s) (s_drawn s) (s_hint s) in
   let ambiguous := oexn_eqb out (Some EAmbiguous) in
   (if ambiguous || oexn_eqb out (s_out s) then [] else [1%N]) ++
   (if ambiguous || graph_eqb g' post then [] else [2%N]) ++
   (if Bool.eqb (wf_b post) (negb (s_pyviol s)) then [] else [3%N]) ++
   (if views_agree tb post (s_views s) then [] else [4%N]).
 
-Fixpoint run_steps (sub : bool) (tb : N -> str) (pre : graph) (l : list stepc) (k : N) : list (N * list N) :=
+Fixpoint run_steps (cf : bool * flags) (tb : N -> str) (pre : graph) (l : list stepc) (k : N) : list (N * list N) :=
   match l with
   | [] => []
   | s :: r =>
-      let f := step_failures sub tb pre s in
-      (match f with [] => [] | _ => [(k, f)] end) ++ run_steps sub tb (decode tb (s_snap s)) r (N.succ k)
+      let f := step_failures cf tb pre s in
+      (match f with [] => [] | _ => [(k, f)] end) ++ run_steps cf tb (decode tb (s_snap s)) r (N.succ k)
   end.
 
 Definition table (l : list str) : N -> str := fun k => nth (N.to_nat k) l [].
@@ -90,7 +90,7 @@ Definition explain (c : tcase) (k : nat) : option (option exn * graph) :=
     let l := steps tb in
     let pre := match k with O => empty_graph | Datatypes.S j => match nth_error l j with Some s => decode tb (s_snap s) | None => empty_graph end end in
     match nth_error l k with
-    | Some s => let '(g', out) := step sub pre (s_op s) (s_drawn s) (s_hint s) in Some (out, g')
+    | Some s => let '(g', out) := step (fst sub) (snd sub) pre (s_op s) (s_drawn s) (s_hint s) in Some (out, g')
     | None => None
     end
   end.
